@@ -20,7 +20,7 @@
    [run_v0]                               the same run with the loader's mergeResult BEFORE the three repairs
        (work/c07_fix_*.patch; ModelPreFix.v): the `_refuted` theorems are historical, about that function. *)
 From Gv Require Import lib.Bytes lib.Json C02.Model C02.Spec C07.Model C07.ModelPreFix C07.Spec
-     C07.ProofsErrors C07.ProofsMono C07.ProofsJson C07.ProofsUnaff C07.ProofsExamples.
+     C07.ProofsErrors C07.ProofsMono C07.ProofsJson C07.ProofsUnaff C07.ProofsSkip C07.ProofsExamples.
 From Coq Require Import String.
 Open Scope N_scope.
 Open Scope string_scope.
@@ -90,6 +90,62 @@ Theorem c07_requests_subset :
     requests_subset_b (ls_reqs (run answer root_answer kind_of no_faults t)) (ls_reqs (run answer root_answer kind_of F t)) = true.
 Proof. exact requests_subset_proof. Qed.
 Print Assumptions c07_requests_subset.
+
+(* requests_subset above is about plans whose representation inputs are non-null ([fplan_wf]): there a
+   dependant whose input is missing does not render and the erroredFetchIDs bookkeeping is not needed.
+   With NULLABLE @requires inputs the representation renders with null, and only the bookkeeping keeps the
+   dependant from being sent.  The next two theorems are about that bookkeeping, for any representations,
+   any answers and any fetch tree whose dependencies come earlier ([deps_before]):
+   (1) every fetch whose request was hit by a failure kind of the property is recorded as errored
+       (after the repair: every kind, not only the transport error);
+   (2) the skip is TRANSITIVE although DependsOnFetchIDs lists direct dependencies only, because a
+       skipped fetch is recorded itself: a fetch that depends through any number of fetches
+       ([dep_reach]) on a fetch whose request failed is recorded and sends no request.
+   [ls_hard s = false]: the resolve did not abort (an aborted resolve writes no response). *)
+Theorem c07_failed_recorded :
+  forall (answer : N -> bytes -> json * list json) (root_answer : N -> json * list json) (kind_of : N -> fkind)
+         (F : N -> option fault) (t : ftree),
+    (forall id k, F id = Some k -> loud (kind_of id) k = true) -> roots_are_objects root_answer ->
+    forallb (fetch_wf kind_of) (fetches_of t) = true ->
+    forall rq, In rq (ls_reqs (run answer root_answer kind_of F t)) -> F (rq_fetch rq) <> None ->
+    In (rq_fetch rq) (ls_errored (run answer root_answer kind_of F t)).
+Proof. exact failed_recorded_thm. Qed.
+Print Assumptions c07_failed_recorded.
+
+Theorem c07_skip_transitive :
+  forall (answer : N -> bytes -> json * list json) (root_answer : N -> json * list json) (kind_of : N -> fkind)
+         (F : N -> option fault) (t : ftree),
+    (forall id k, F id = Some k -> loud (kind_of id) k = true) -> roots_are_objects root_answer ->
+    forallb (fetch_wf kind_of) (fetches_of t) = true -> deps_before t = true ->
+    let s := run answer root_answer kind_of F t in
+    ls_hard s = false ->
+    forall rq0, In rq0 (ls_reqs s) -> F (rq_fetch rq0) <> None ->
+    forall f, dep_reach (fetches_of t) (rq_fetch rq0) f ->
+      In (f_id f) (ls_errored s) /\ forall rq, In rq (ls_reqs s) -> rq_fetch rq <> f_id f.
+Proof. exact skip_transitive_thm. Qed.
+Print Assumptions c07_skip_transitive.
+
+(* non-vacuity: the four-fetch chain of plan 5 (f3 depends on f0 and on the skipped f2 only; nullable inputs);
+   fault-free all four requests go out, under an empty body for f1 only f0 and f1, and the hypotheses of
+   c07_skip_transitive hold for f3 *)
+Example c07_skip_transitive_chain :
+  let F := fault_at 1 FtEmpty in
+  forallb (fetch_wf p5_kind) (fetches_of p5_tree) = true /\ deps_before p5_tree = true /\
+  List.map rq_fetch (ls_reqs (p5_run no_faults)) = [0; 1; 2; 3] /\
+  ls_hard (p5_run F) = false /\
+  (exists rq0, In rq0 (ls_reqs (p5_run F)) /\ F (rq_fetch rq0) <> None /\ dep_reach (fetches_of p5_tree) (rq_fetch rq0) p5_f3 /\
+               ~ In (rq_fetch rq0) (f_deps p5_f3)) /\
+  List.map rq_fetch (ls_reqs (p5_run F)) = [0; 1].
+Proof.
+  cbv zeta. split; [vm_compute; reflexivity|]. split; [vm_compute; reflexivity|]. split; [vm_compute; reflexivity|].
+  split; [vm_compute; reflexivity|]. split; [|vm_compute; reflexivity].
+  eexists. split; [right; left; reflexivity|]. split; [vm_compute; discriminate|]. split.
+  - apply DR_step with (h := p5_f2).
+    + apply DR_direct; [right; right; left; reflexivity|right; left; reflexivity].
+    + right; right; right; left; reflexivity.
+    + right; left; reflexivity.
+  - vm_compute. intros [H|[H|[]]]; discriminate.
+Qed.
 
 (* HISTORICAL: before the repair a single-entity fetch answered with `_entities: []` ("wrong entity
    count") was taken for "entity not found" and nothing was reported *)
